@@ -75,6 +75,8 @@ def register(reg):
                       for k in (0, 1)) + ')')],
         raises=[('NoOverlapError', NO_OVERLAP)], cases={'mode': ['trim', 'partial']},
         returns=('tuple', 'slice2', 'slice2'),
+        replay={'call': 'photutils.utils.cutouts:_overlap_slices',
+                'args': ['large_array_shape', 'small_array_shape', 'position', 'mode']},
         # (for sizes >= 1 the wrapper's own zero-width check never fires: mutating it is an
         # equivalent change here)
         mutants=[('slc_lg[i].stop - slc_lg[i].start == 0', 'slc_lg[i].stop - slc_lg[i].start >= 0'),
